@@ -19,6 +19,8 @@ to). Every theorem quantifies over EVERY schedule.
       every single-entry case and by `decide` on examples).
   (e) `async_quiescence`                from any state some schedule of handler steps empties all queues, and EVERY
       schedule of enabled handler steps is shorter than the measure (acyclic edges).
+  `overflow_is_local` (+ `cap_none_is_the_unbounded_model`): with BOUNDED queues (Kap/Model/C09AsyncCap.lean) a full
+  handler queue costs that handler the event and nobody else anything.
   `nonatomic_collect_breaks_prev_chain`: with the two halves of `Topic.collect` as separate steps (the code before
   /repo 800c4eb) a recorder can see an event whose previous level is not the level of the event it saw before.
 -/
@@ -28,6 +30,7 @@ import Kap.Proofs.C09AsyncPrev
 import Kap.Proofs.C09AsyncTerm
 import Kap.Proofs.C09AsyncConfl
 import Kap.Proofs.C09AsyncChains
+import Kap.Proofs.C09AsyncCap
 import Kap.Props.C09Svc
 namespace Kap.Props.C09Async
 open Kap.C09 Kap.C09.Svc Kap.C09.SvcSpec Kap.C09.Async Kap.C09.AsyncSpec Kap.C09.AsyncProofs
@@ -230,6 +233,53 @@ example : ∀ name ∈ ["r"], ∀ X ∈ ["t0", "p0", "p1"],
 /-- on the diamond the synchronous model (2 copies of the one event, depth first) and the canonical schedule of the
 asynchronous model agree as multisets here, but the synchronous model is only ONE of the possible interleavings -/
 example : ((runSettled C09Svc.diamond).received "r" "p2").length = 2 := by decide
+
+/-! ## bounded queues: overflow -/
+
+/-- the model with unbounded queues (`cap = none`) IS the model all theorems above are about: step by step and
+along every schedule -/
+theorem cap_none_is_the_unbounded_model (sched : List Step) (s : ASt) :
+    Cap.execAllC none sched s = execAll sched s ∧ (∀ st, execC none s st = exec s st) :=
+  ⟨Cap.execAllC_none sched s, Cap.execC_none s⟩
+
+/-- **Overflow is local, for every capacity.** When `Topic.collect` meets full handler queues (non-blocking
+`bufHandler.Handle`): (1) the topic's state and its arrival log are updated exactly as without any bound; (2) a
+handler of the topic — spec handler or recorder — is handed the event iff its OWN queue is not full, whatever the
+queues of the other handlers look like; (3) a publish handler's event is stored and logged on EVERY target topic
+exactly as without any bound, whatever overflowed on other targets or handlers (the result of `Collect` is ignored,
+the loop goes on); (4) handlers on topics that are not targets are not touched. -/
+theorem overflow_is_local (cap : Option Nat) (s : ASt) :
+    (∀ T it, (collectOnC cap s T it).last = (collectOn s T it).last ∧ (collectOnC cap s T it).arr = (collectOn s T it).arr) ∧
+    (∀ T it k, (collectOnC cap s T it).hq k = if full cap (s.hq k) = true then s.hq k else (collectOn s T it).hq k) ∧
+    (∀ T it r, (collectOnC cap s T it).rq r = if full cap (s.rq r) = true then s.rq r else (collectOn s T it).rq r) ∧
+    (∀ sp it, (publishC cap s sp it).last = (publish s sp it).last ∧ (publishC cap s sp it).arr = (publish s sp it).arr) ∧
+    (∀ sp it k, k.1 ∉ sp.targets → (publishC cap s sp it).hq k = s.hq k ∧ (publishC cap s sp it).rq k = s.rq k) :=
+  ⟨fun T it => ⟨Cap.collectOnC_last cap s T it, Cap.collectOnC_arr cap s T it⟩,
+   fun T it k => Cap.collectOnC_hq cap s T it k,
+   fun T it r => Cap.collectOnC_rq cap s T it r,
+   fun sp it => Cap.publishC_last_arr cap s sp it,
+   fun sp it k hk => ⟨Cap.publishC_hq_other cap s sp it k hk, Cap.publishC_rq_other cap s sp it k hk⟩⟩
+
+/-- the same for one handler step: the topics' states and arrival logs after `runHC` are those of the unbounded
+step -/
+theorem overflow_is_local_step (cap : Option Nat) (s : ASt) (k : Key) (sp : Spec) (it : Item) (rest : List Item)
+    (h1 : s.specOf k = some sp) (h2 : s.hq k = it :: rest) :
+    (runHC cap s k).last = (runH s k).last ∧ (runHC cap s k).arr = (runH s k).arr :=
+  Cap.runHC_last_arr cap s k sp it rest h1 h2
+
+/-- non-vacuity: capacity 1, t0 → (p0, p1), the recorder on p0 is never run (gated): of three collects it is queued
+one, the recorder on p1 — later in the target list — gets all three, and p0's own state follows all three -/
+example :
+    let sched : List Step :=
+      [ .ext (.recorder "p0" "g"), .ext (.recorder "p1" "r"),
+        .ext (.reg { topic := "t0", hid := "h0", midx := 0, targets := ["p0", "p1"] }),
+        .ext (.collect "t0" { id := "a", level := 1, time := 1, prev := 0, tags := [] }), .runH ("t0", "h0"), .runR ("p1", "r"),
+        .ext (.collect "t0" { id := "a", level := 3, time := 2, prev := 0, tags := [] }), .runH ("t0", "h0"), .runR ("p1", "r"),
+        .ext (.collect "t0" { id := "a", level := 2, time := 3, prev := 0, tags := [] }), .runH ("t0", "h0"), .runR ("p1", "r") ]
+    let s := Cap.execAllC (some 1) sched {}
+    ((s.rq ("p0", "g")).map (·.ev.level) = [1]) ∧ ((s.got ("p1", "r")).map (·.ev.level) = [1, 3, 2])
+      ∧ s.last "p0" "a" = some 2 ∧ (s.arr "p0").length = 3 := by
+  decide
 
 /-! ## (e) quiescence -/
 
